@@ -10,7 +10,7 @@ func init() {
 	registerProp(PropSpec{ID: "C02",
 		Rules: []string{"CENSUS.CallFrame.Terminal", "CENSUS.CallFrame.TROBlock", "CENSUS.CallStack.Frames", "CENSUS.CallFrame.HeightLogical", "CENSUS.CallFrame.TailIterations",
 			"CALLERS.TerminalFID", "CALLERS.markTailRec", "CALLERS.decrementMarkTailRec", "CALLERS.extractMarkTailRec",
-			"TRO.block-first", "TRO.blocked-never-terminal", "TRO.terminal-then-tail", "TRO.debugger-gate", "TRO.mark-consumed",
+			"TRO.block-first", "TRO.blocked-never-terminal", "TRO.terminal-then-tail", "TRO.debugger-gate", "TRO.mark-consumed", "TRO.tail-forwarders", "TRO.scan-complete",
 			"PAIR.terminal-reset", "PAIR.frame"},
 		Explanation: "frame-accounting protocol of tail-call elimination: who may mark a frame terminal or blocked, that a terminal frame returns its evaluator call verbatim, that blocked frames are blocked before anything is evaluated and never return terminal expressions, that recognition is gated on Debugger==nil, and that the two call loops consume marks only after the limit checks",
 		Assumptions: []string{"go/types + go/cfg model of the working tree", "static call resolution (dynamic calls through LBuiltin values are the registry, handled by the census of writers)"},
@@ -23,7 +23,7 @@ func init() {
 		ThoroughConfigs: []string{"elpscheck"},
 	})
 	registerProp(PropSpec{ID: "C04",
-		Rules: []string{"ENTRY.begin-eval", "LIMIT.result-returned", "HEIGHT.push-check", "HEIGHT.check-chain", "HEIGHT.nesting-check", "POLL.eval-cycles", "POLL.int-loops", "TRO.mark-consumed", "SLEEP.cap", "SLEEP.context", "SLEEP.only-here",
+		Rules: []string{"ENTRY.begin-eval", "LIMIT.result-returned", "HEIGHT.push-check", "HEIGHT.check-chain", "HEIGHT.nesting-check", "LIMIT.poll-shape", "MACROEXP.bound", "READERS.Runtime.MaxMacroExpansionDepth", "READERS.Runtime.MaxAlloc", "READERS.Runtime.MaxEvalNesting", "READERS.Runtime.MaxSleep", "READERS.Runtime.maxSteps", "READERS.CallStack.MaxHeightPhysical", "READERS.CallStack.MaxHeightLogical", "READERS.CallStack.MaxTailIterations", "POLL.eval-cycles", "POLL.int-loops", "TRO.mark-consumed", "SLEEP.cap", "SLEEP.context", "SLEEP.only-here",
 			"CENSUS.Runtime.steps", "CENSUS.Runtime.maxSteps", "CENSUS.Runtime.totalSteps", "CENSUS.Runtime.evalDepth", "CENSUS.Runtime.evalNesting", "CENSUS.CallStack.Frames",
 			"PAIR.nesting", "PAIR.frame"},
 		Explanation: "limit discipline as control-flow facts",
